@@ -62,6 +62,8 @@ func (c *Ctx) callSites(fn *ssa.Function, re string) []site {
 			_ = r
 			if m {
 				out = append(out, site{Ins: ins, Call: ci.Common(), Desc: d, Block: b})
+			} else {
+				out = append(out, c.E1.helperSites(ins, re)...)
 			}
 		}
 	}
@@ -119,6 +121,55 @@ func (c *Ctx) callerNames(f *ssa.Function) []string {
 // whoMayCall produces one obligation: the in-repo callers of fn are within allowed
 // (regexps over caller names).  Callers in test-only or CLI packages are not
 // loaded, so the table is about the shipped program.
+// owners: the functions answerable for what fn does. For a function that existed when the tables were
+// written that is fn itself; for a new function (an extracted helper) it is whoever calls it,
+// transitively. A new function nobody calls has no owner (nothing reaches it).
+func (c *Ctx) owners(fn *ssa.Function) []*ssa.Function {
+	seen := map[*ssa.Function]bool{}
+	var out []*ssa.Function
+	var rec func(f *ssa.Function, d int)
+	rec = func(f *ssa.Function, d int) {
+		if seen[f] {
+			return
+		}
+		seen[f] = true
+		if !isNewFn(f) || d > 6 {
+			out = append(out, f)
+			return
+		}
+		if p := f.Parent(); p != nil {
+			rec(p, d+1) // a new closure belongs to the function it is written in
+			return
+		}
+		for _, cl := range c.A.Callers(f) {
+			rec(cl, d+1)
+		}
+	}
+	rec(fn, 0)
+	sort.Slice(out, func(i, j int) bool { return FnName(out[i]) < FnName(out[j]) })
+	return out
+}
+
+// allowedFn: every owner of fn matches one of the allowed patterns; otherwise the first owner that does not.
+func (c *Ctx) allowedFn(fn *ssa.Function, allowed []string) (bool, string) {
+	for _, ow := range c.owners(fn) {
+		n := FnName(ow)
+		ok := false
+		for _, a := range allowed {
+			if c.E1.re("^(?:" + a + ")$").MatchString(n) {
+				ok = true
+			}
+		}
+		if !ok {
+			if ow != fn {
+				return false, n + " (through the new function " + FnName(fn) + ")"
+			}
+			return false, n
+		}
+	}
+	return true, ""
+}
+
 func (c *Ctx) whoMayCall(prop, rule, fnName string, allowed []string, why string) Obligation {
 	o := c.obl(prop, rule, fnName, fmt.Sprintf("callers of %s ⊆ {%s} — %s", fnName, strings.Join(allowed, ", "), why))
 	f := c.A.Fn(fnName)
@@ -133,14 +184,9 @@ func (c *Ctx) whoMayCall(prop, rule, fnName string, allowed []string, why string
 	}
 	callers := c.A.Callers(f)
 	o.Facts = len(c.A.In[f])
+	_ = res
 	for _, cl := range callers {
-		n := FnName(cl)
-		ok := false
-		for _, r := range res {
-			if r.MatchString(n) {
-				ok = true
-			}
-		}
+		ok, n := c.allowedFn(cl, allowed)
 		if !ok {
 			pos := c.A.FnPos(cl)
 			for _, e := range c.A.In[f] {
